@@ -38,6 +38,8 @@ type Case struct {
 	Docs     []docgen.Doc
 	NoAuto   bool    // only the explicit Docs
 	Witness  string  // pinned canonical witness of this recorded finding: a disagreement on it is that finding
+	Cwd      string  // working directory of the generator run, relative to the program directory
+	AbsInput bool    // pass the root file by absolute path
 	Group    []*Case // further schema files passed to the SAME generator invocation (same package); each has its own root type and documents
 
 	prog *batch.Program
@@ -168,6 +170,7 @@ func Explain(ks *known.Set, root *sg.Schema, doc any, toolAccept bool) string {
 }
 
 type pending struct {
+	root *sg.Schema // schema of the program that executes this command (differs from c.Root for a partner program)
 	c    *Case
 	prog *batch.Program
 	doc  docgen.Doc
@@ -211,7 +214,16 @@ func Run(cfg *Config) (*Report, error) {
 		} else {
 			data = jsonx.MarshalIndent(c.Root.ToJSON())
 		}
-		p := &batch.Program{ID: fmt.Sprintf("p%06d", i), Files: append([]batch.File{{Path: rf, Data: data}}, c.Extra...), Args: c.Args, Inputs: []string{rf}, Meta: c}
+		in := rf
+		if c.Cwd != "" {
+			if rel, err := filepath.Rel(c.Cwd, rf); err == nil {
+				in = rel
+			}
+		}
+		p := &batch.Program{ID: fmt.Sprintf("p%06d", i), Files: append([]batch.File{{Path: rf, Data: data}}, c.Extra...), Args: c.Args, Inputs: []string{in}, Cwd: c.Cwd, Meta: c}
+		if c.AbsInput {
+			p.Inputs = []string{filepath.Join(env.St.Root, "progs", p.ID, rf)}
+		}
 		for gi, gc := range c.Group {
 			if gc.RootFile == "" {
 				gc.RootFile = fmt.Sprintf("group%d.json", gi)
@@ -450,11 +462,11 @@ func runBatch(cfg *Config, rep *Report, ks *known.Set, cases []*Case) error {
 					send, dmode = sg.ToYAML(d.V, sg.YAMLBlock), "yaml"
 				}
 				cmds = append(cmds, batch.NewCmd(len(cmds), c.prog.ID, rt, dmode, send))
-				pend = append(pend, pending{c: c, prog: c.prog, doc: d, mr: mr, mode: mode, raw: raw})
+				pend = append(pend, pending{root: c.Root, c: c, prog: c.prog, doc: d, mr: mr, mode: mode, raw: raw})
 				if c.Pair != nil {
 					prt := rootTypeOf(c.Pair)
 					cmds = append(cmds, batch.NewCmd(len(cmds), c.Pair.prog.ID, prt, mode, raw))
-					pend = append(pend, pending{c: c, prog: c.Pair.prog, doc: d, mr: mr, mode: mode, pair: true, raw: raw})
+					pend = append(pend, pending{root: c.Pair.Root, c: c, prog: c.Pair.prog, doc: d, mr: mr, mode: mode, pair: true, raw: raw})
 				}
 			}
 		}
@@ -507,7 +519,7 @@ func addViolation(cfg *Config, rep *Report, v Violation) {
 
 func mkViolation(p pending, kind, exp, obs, detail string) Violation {
 	return Violation{Kind: kind, Class: p.doc.Class, Label: p.doc.Label, Path: p.doc.Path, Mode: p.mode, Expected: exp, Observed: obs, Detail: detail,
-		Schema: json.RawMessage(jsonx.Marshal(p.c.Root.ToJSON())), Args: p.prog.Args, Doc: string(p.raw), Sig: p.c.Sig}
+		Schema: json.RawMessage(jsonx.Marshal(p.root.ToJSON())), Args: p.prog.Args, Doc: string(p.raw), Sig: p.c.Sig}
 }
 
 func decide(cfg *Config, rep *Report, ks *known.Set, p pending, res *batch.Res) {
@@ -515,6 +527,13 @@ func decide(cfg *Config, rep *Report, ks *known.Set, p pending, res *batch.Res) 
 		rep.DontCare["inconclusive-"+func() string {
 			if res == nil {
 				return "nil"
+			}
+			if res.V == "noprog" && os.Getenv("VERIF_DEBUG") != "" {
+				c := p.c
+				if p.pair {
+					c = p.c.Pair
+				}
+				return "noprog:" + rootTypeOf(c) + ":" + c.RootFile + ":" + p.prog.ID
 			}
 			return res.V
 		}()]++
@@ -556,7 +575,7 @@ func decide(cfg *Config, rep *Report, ks *known.Set, p pending, res *batch.Res) 
 			rep.Known[p.c.Witness]++
 			return
 		}
-		if sig := Explain(ks, p.c.Root, p.doc.V, toolAccept); sig != "" {
+		if sig := Explain(ks, p.root, p.doc.V, toolAccept); sig != "" {
 			rep.Known[sig]++
 			if _, ok := rep.KnownExamples[sig]; !ok {
 				rep.KnownExamples[sig] = string(jsonx.Marshal(p.c.Root.ToJSON())) + " doc=" + string(p.raw)
@@ -578,7 +597,7 @@ func decide(cfg *Config, rep *Report, ks *known.Set, p pending, res *batch.Res) 
 			return
 		}
 		oo := model.OutOpts{SkipDefaults: !cfg.Defaults, SkipAddProps: !cfg.AddProps}
-		diffs := model.CompareOut(p.c.Root, p.doc.V, out, oo)
+		diffs := model.CompareOut(p.root, p.doc.V, out, oo)
 		if len(diffs) > 0 {
 			if p.c.Witness != "" && ks.Has(p.c.Witness) {
 				rep.Known[p.c.Witness]++
@@ -594,7 +613,7 @@ func decide(cfg *Config, rep *Report, ks *known.Set, p pending, res *batch.Res) 
 		if cfg.ByValue {
 			outv, err := jsonx.Parse([]byte(res.OutV))
 			if err == nil {
-				if d2 := model.CompareOut(p.c.Root, p.doc.V, outv, oo); len(d2) > 0 {
+				if d2 := model.CompareOut(p.root, p.doc.V, outv, oo); len(d2) > 0 {
 					if sig := explainValue(ks, p, d2, outv, oo); sig != "" {
 						rep.Known[sig]++
 						return
@@ -637,7 +656,7 @@ func explainValue(ks *known.Set, p pending, diffs []model.OutDiff, out any, base
 	for _, d := range listed {
 		o := base
 		d.set(&o)
-		if len(model.CompareOut(p.c.Root, p.doc.V, out, o)) == 0 {
+		if len(model.CompareOut(p.root, p.doc.V, out, o)) == 0 {
 			return d.sig
 		}
 	}
@@ -648,7 +667,7 @@ func explainValue(ks *known.Set, p pending, diffs []model.OutDiff, out any, base
 			d.set(&o)
 			names = append(names, d.sig)
 		}
-		if len(model.CompareOut(p.c.Root, p.doc.V, out, o)) == 0 {
+		if len(model.CompareOut(p.root, p.doc.V, out, o)) == 0 {
 			return strings.Join(names, "+")
 		}
 	}
